@@ -233,6 +233,10 @@ func siteKind(in ssa.Instruction) string {
 		return "nil"
 	case *ssa.Panic:
 		return "panic"
+	case *ssa.Range:
+		return "range"
+	case *ssa.MakeClosure:
+		return "closure"
 	case *ssa.TypeAssert:
 		if !x.CommaOk {
 			return "typeassert"
@@ -679,6 +683,7 @@ func (u *Unit) step(s *State, in ssa.Instruction) {
 	case *ssa.MakeClosure:
 		fn := x.Fn.(*ssa.Function)
 		s.closures[x] = &Closure{fn: fn, bindings: x.Bindings}
+		u.closureRequires(s, x, fn)
 		r := u.newAddr(s, "closure")
 		r.T = x.Type()
 		s.regs[x] = r
@@ -710,6 +715,22 @@ func (u *Unit) step(s *State, in ssa.Instruction) {
 		r.T = x.Type()
 		s.regs[x] = r
 		s.tups[x] = []Term{u.val(s, x.X)}
+		if _, isMap := x.X.Type().Underlying().(*types.Map); isMap {
+			if fc := u.p.contractFor(x.Parent()); fc != nil {
+				ord := u.ordinal(x)
+				for _, c := range fc.Clauses {
+					if c.Kind == "watch" && c.Loop == ord {
+						env := u.bodyEnv(s, x.Parent())
+						w, err := env.term(c.Expr)
+						if err != nil {
+							panic(abortUnit{fmt.Sprintf("%s:%d: %v", c.File, c.Line, err)})
+						}
+						s.tups[x] = append(s.tups[x], w)
+						s.ghost[fmt.Sprintf("$seen%d", ord)] = Term{S: "false", Sort: "Bool"}
+					}
+				}
+			}
+		}
 	case *ssa.Next:
 		u.next(s, x)
 	default:
@@ -974,10 +995,40 @@ func (u *Unit) next(s *State, x *ssa.Next) {
 	s.assume(fmt.Sprintf("(=> %s (and (not (= %s 0)) (select (select %s %s) %s)))", ok.S, m.S, pres.S, m.S, kk.S))
 	vv := Term{fmt.Sprintf("(select (select %s %s) %s)", vals.S, m.S, kk.S), vs, mt.Elem()}
 	s.tups[x] = []Term{{S: ok.S, Sort: "Bool"}, kk, vv}
-	// skolem-key bookkeeping: a ghost "seen" flag per watched key
-	if w, okw := s.ghost["$watch."+rng.Name()]; okw {
-		seen := s.ghost["$seen."+rng.Name()]
+	// watched (skolem) key: a complete iteration has seen every key present in the map
+	if len(s.tups[rng]) > 1 {
+		w := s.tups[rng][1]
+		g := fmt.Sprintf("$seen%d", u.ordinal(rng))
+		seen := s.ghost[g]
 		ns := u.define(s, "seen", Term{S: fmt.Sprintf("(or %s (and %s (= %s %s)))", seen.S, ok.S, kk.S, w.S), Sort: "Bool"})
-		s.ghost["$seen."+rng.Name()] = ns
+		s.ghost[g] = Term{S: ns.S, Sort: "Bool"}
+		s.assume(fmt.Sprintf("(=> (not %s) (=> (and (not (= %s 0)) (select (select %s %s) %s)) %s))", ok.S, m.S, pres.S, m.S, w.S, ns.S))
+	}
+}
+
+// closureRequires: preconditions of a closure that speak only about its captured variables are
+// proved where the closure is created (the captured cells are bound there).
+func (u *Unit) closureRequires(s *State, mc *ssa.MakeClosure, fn *ssa.Function) {
+	fc := u.p.contractFor(fn)
+	if fc == nil {
+		return
+	}
+	for i, fv := range fn.FreeVars {
+		if i < len(mc.Bindings) {
+			s.addrs[fv] = u.addrOf(s, mc.Bindings[i])
+		}
+	}
+	for _, c := range fc.Clauses {
+		if c.Kind != "requires" {
+			continue
+		}
+		env := &Env{u: u, s: s, old: s, names: map[string]Term{}, fn: fn, pkg: fn.Pkg}
+		g, err := env.formula(c.Expr)
+		if err != nil {
+			u.note("precondition %s of closure %s is not about captured variables only; not checked at creation", c.Label, u.fnShort(fn))
+			continue
+		}
+		n := fmt.Sprintf("%s.closure.%s#%d", labelWithFn(c.Label, u.fnShort(mc.Parent())), u.fnShort(fn), u.ordinal(mc))
+		u.oblige(s, n, c.Props, "requires", g, mc.Pos())
 	}
 }
